@@ -232,11 +232,11 @@ var cliFiles = map[string][]byte{
 `),
 	// a heterogeneous file: columns whose values are composites of the same kind with different inner
 	// types, so that the inferred column type is a TypeSum over lists/objects of different inner types
-	"h.json": []byte(`{"id":1,"m":"x","o":{"x":1,"y":"a"},"l":[1,2],"n":null,"lo":[{"a":1}]}
-{"id":2,"m":[1,2],"o":{"x":"s","y":"b"},"l":["a"],"n":[1.5],"lo":[{"a":"s"}]}
-{"id":3,"m":["a"],"o":"str","l":[[1]],"n":["z"],"lo":[]}
-{"id":4,"m":null,"o":{"x":[1],"y":null},"l":[],"n":null,"lo":[{"a":null}]}
-{"id":5,"m":[true],"o":{"x":["q"],"y":"c"},"l":[null,2],"n":[[true]],"lo":[{"a":[1]},{"a":["w"]}]}
+	"h.json": []byte(`{"id":1,"m":"x","o":{"x":1,"y":"a"},"l":[1,2],"n":null,"lo":[{"a":1}],"nf":null,"ls":["a"],"no":null,"os":{"x":"s","y":[1]},"sf":"q"}
+{"id":2,"m":[1,2],"o":{"x":"s","y":"b"},"l":["a"],"n":[1.5],"lo":[{"a":"s"}],"nf":[1.5],"ls":["b","c"],"no":{"x":1,"y":["u"]},"os":{"x":"t","y":[2]},"sf":[2.5]}
+{"id":3,"m":["a"],"o":"str","l":[[1]],"n":["z"],"lo":[],"nf":null,"ls":[],"no":null,"os":{"x":"u","y":[]},"sf":"r"}
+{"id":4,"m":null,"o":{"x":[1],"y":null},"l":[],"n":null,"lo":[{"a":null}],"nf":[2,3],"ls":["d"],"no":{"x":2,"y":[]},"os":{"x":"v","y":[3,4]},"sf":[]}
+{"id":5,"m":[true],"o":{"x":["q"],"y":"c"},"l":[null,2],"n":[[true]],"lo":[{"a":[1]},{"a":["w"]}],"nf":null,"ls":["e"],"no":null,"os":{"x":"w","y":[5]},"sf":"s"}
 `),
 	"c.csv": []byte("cid,n,name,score\n1,10,ab,1.5\n2,,cd,\n3,7,12,2.5\n4,0,,3\n"),
 }
@@ -302,7 +302,7 @@ func renderItems(items []cliItem) string {
 }
 
 func buildCLIQuery(rng *rand.Rand, idx int) cliQuery {
-	shapes := []string{"project", "project", "where", "star", "join-left", "join-right", "join-outer", "join-inner", "groupby", "global-agg", "distinct", "subquery", "csv", "csv-join", "star-t2", "range", "hetero", "hetero"}
+	shapes := []string{"project", "project", "where", "star", "join-left", "join-right", "join-outer", "join-inner", "groupby", "global-agg", "distinct", "subquery", "csv", "csv-join", "star-t2", "range", "hetero", "hetero", "hetero"}
 	switch shapes[idx%len(shapes)] {
 	case "project":
 		items := pickItems(rng, cliItemsA)
@@ -381,6 +381,8 @@ func buildCLIQuery(rng *rand.Rand, idx int) cliQuery {
 		return cliQuery{sql: "SELECT " + renderItems(items) + " FROM c.csv c " + kw + " t2.json b ON float(c.cid) = b.k", items: items}
 	case "hetero":
 		hi := []string{"h.id", "h.m", "h.o", "h.l", "h.n", "h.lo", "h.m::[]", "h.m::string", "h.o::{}", "(h.o::{})->x", "(h.o::{})->y", "h.l[0]", "h.l[1]", "h.n::[]", "(h.n::[])[0]",
+			"COALESCE(h.nf, h.ls)", "COALESCE(h.nf, h.ls)", "COALESCE(h.ls, h.nf)", "COALESCE(h.no, h.os)", "COALESCE(h.os, h.no)", "COALESCE(h.sf, h.ls)", "COALESCE(h.nf, h.sf, h.ls)",
+			"COALESCE(h.nf, h.ls)[0]", "COALESCE(h.no, h.os)->y", "(COALESCE(h.nf, h.ls), h.id)", "h.nf", "h.ls", "h.no", "h.os", "h.sf", "COALESCE(h.nf, (SELECT g.sf::string FROM h.json g))",
 			"COALESCE(h.n, h.l)", "COALESCE(h.n, h.m)", "COALESCE(h.m, h.l)", "COALESCE(h.n::[], h.lo)", "COALESCE(h.m::[], h.n::[], h.l)", "COALESCE(h.o::{}, h.lo[0])", "h.lo[0]", "h.lo[1]->a", "len(h.l)", "string(h.m)",
 			"(h.m, h.l)", "(SELECT g.l FROM h.json g)", "(SELECT g.m FROM h.json g WHERE g.id > 1.0)", "COALESCE(h.n, (SELECT g.id FROM h.json g))"}
 		if rng.Intn(4) == 0 {
